@@ -259,6 +259,10 @@ def population_product(seed, quick):
     out = []
     if quick:
         grid = [dict(latent_prior=lp, constant_volume_mode=False, train_on_empty=False) for lp in ("uniform_nsphere", "uniform_nball", "truncated_gaussian")]
+        # a flow that is actually trained (every other run uses 5 epochs): log-q truncation and tiny draw
+        # sizes only bite once the flow has learnt the contour
+        trained = dict(nlive=50, poolsize=50, training_config={"max_epochs": 200, "patience": 200})
+        grid += [dict(trained, truncate_log_q=True, drawsize=1), dict(trained, truncate_log_q=True), dict(trained, drawsize=1), dict(trained, truncate_log_q=True, drawsize=3, constant_volume_mode=False)]
         seeds = (seed, seed + 1, seed + 2, seed + 3)
     else:
         grid = []
@@ -266,6 +270,12 @@ def population_product(seed, quick):
             if cvm and lp in ("gaussian", "uniform", "flow"):
                 continue  # constant-volume mode is defined for the radially truncated priors only
             grid.append(dict(latent_prior=lp, constant_volume_mode=cvm, train_on_empty=toe, accumulate_weights=acc, update_poolsize=ups))
+        trained = dict(nlive=50, poolsize=50, training_config={"max_epochs": 200, "patience": 200})
+        for tq, ds, cvm in itertools.product((True, False), (1, 2, 3, None), (True, False)):
+            kw_ = dict(trained, truncate_log_q=tq, constant_volume_mode=cvm)
+            if ds:
+                kw_["drawsize"] = ds
+            grid.append(kw_)
         seeds = tuple(seed + i for i in range(6))
     for kw in grid:
         for s_ in seeds:
